@@ -46,7 +46,7 @@ def override_case(draw, tier, mode):
     G = gen.GenCtx(mode, cap=cap)
     S = draw(gen.structure(mode, cap=cap, kinds=('leaf', 'tuple', 'dict', 'nested', 'stokes', 'related', 'related')))
     ranks_ok = all(len(sh) >= 1 for sh, _ in St.leaves(S))
-    forms = ['id', 'hom', 'sum', 'bcol', 'inv']
+    forms = ['id', 'hom', 'sum', 'sum_repeat', 'bcol', 'inv']
     if ranks_ok:
         forms += ['diag', 'diag', 'diag_inv', 'diag_inv', 'ravel', 'reshape']
     if S['t'] in ('tuple', 'list', 'dict'):
@@ -56,7 +56,26 @@ def override_case(draw, tier, mode):
     if S['t'] == 'leaf' and ranks_ok:
         forms += ['toeplitz', 'toeplitz']
     form = draw(st.sampled_from(forms))
-    if form == 'id':
+    if draw(st.integers(0, 9)) == 0:
+        # values with the SHAPE of the leaf laid on its axes in another order (square leaves): the dense form has to
+        # follow axis_destination, not the shape
+        d = draw(st.integers(2, 3))
+        S = St.leaf([d, d] + ([draw(st.integers(1, 2))] if draw(st.booleans()) else []), draw(st.sampled_from(gen.dtypes(mode))))
+        vals = [[float(draw(st.integers(-3, 3))) for _ in range(d)] for _ in range(d)]
+        vals[0][d - 1] = 4.0
+        axes = draw(st.sampled_from([[1, 0], [-1, -2], [1, -2]])) if len(S['shape']) == 2 else draw(st.sampled_from([[1, 0], [-2, -3], [1, 0]]))
+        expr = {'k': 'diag', 'in': S, 'vals': vals, 'axis': axes, 'vdtype': 'float32', 'axis_as_list': draw(st.booleans())}
+        if draw(st.booleans()):
+            expr['vals'] = [[v if v != 0 else 1.0 for v in row] for row in vals]
+            expr = {'k': 'I', 'op': expr}
+        form = 'diag_permuted_axes'
+    elif form == 'sum_repeat':
+        # the same operator OBJECT several times in one sum (a + b + a, a + a)
+        a = G.define(gen.leaf_operand(draw, G, S, square=True))
+        b = gen.leaf_operand(draw, G, S, square=True)
+        terms = draw(st.sampled_from([[a, b, a], [a, a], [a, b, a, a], [b, a, a]]))
+        expr = {'k': 'add', 'ops': terms, 'via': draw(st.sampled_from(['plus', 'list'])), 'tree': gen._ptree(draw, len(terms))}
+    elif form == 'id':
         expr = {'k': 'id', 'in': S}
     elif form == 'hom':
         expr = gen.leaf_operand(draw, G, S, kind='hom')
